@@ -46,6 +46,8 @@ def tf_str(ops):
             out.append("%s(%d)" % (k, op[1]))
         elif k == "matrix":
             out.append("matrix(%s)" % " ".join(str(x) for x in op[1:]))
+        elif k == "matrixq":
+            out.append("matrix(%s)" % " ".join(num(x / op[7]) for x in op[1:7]))
         else:
             raise ValueError(op)
     return " ".join(out)
@@ -126,7 +128,7 @@ def geom_attrs(nd):
 
 def concretise(doc, flags=()):
     """ADoc -> SVG text.  flags: "ws" (inter-element whitespace), "xmldecl"."""
-    vb = doc["vb"]
+    vb = doc.get("view", doc["vb"])
     foo = any(a[0].startswith("foo:") for nd in doc["nodes"] for a in nd["at"])
     out = ['<svg xmlns="%s" xmlns:xlink="%s"%s viewBox="%s"%s>' % (
         SVGNS, XLINK, ' xmlns:foo="http://example.com/foo"' if foo else "",
@@ -332,7 +334,7 @@ def _mul(m, n):
             m[1] * n[2] + m[3] * n[3], m[0] * n[4] + m[2] * n[5] + m[4], m[1] * n[4] + m[3] * n[5] + m[5])
 
 
-def grad_info(gel, bbox, vb, dense):
+def grad_info(gel, bbox, vb, dense, view=None):
     """output gradient element -> (paint string, grid of floor(256 t) / floor(256 t^2) or [])"""
     tag = local(gel.tag)
     a = gel.attrib
@@ -352,7 +354,8 @@ def grad_info(gel, bbox, vb, dense):
             v = "%g%%" % dflt_pct
         if v.endswith("%"):
             frac = float(v[:-1]) / 100
-            return frac if bb else frac * (vb[2] if horiz else vb[3])
+            vw = view or vb
+            return frac if bb else frac * (vw[2] if horiz else vw[3])
         return float(v)
 
     m = (1, 0, 0, 1, 0, 0)
@@ -402,7 +405,7 @@ def grad_info(gel, bbox, vb, dense):
     return paint, grid
 
 
-def project(svg_text, vb=(0, 0, 16, 16), dense=False):
+def project(svg_text, vb=(0, 0, 16, 16), dense=False, view=None):
     """picosvg output text -> {"layers": [...], "notes": [...]} for TraceRender / TraceGrad."""
     root = etree.fromstring(svg_text.encode("utf-8"))
     layers = []
@@ -456,7 +459,7 @@ def project(svg_text, vb=(0, 0, 16, 16), dense=False):
                         fill = "dangling:" + fill
                     else:
                         fbb = [min(xs) / U64, min(ys) / U64, max(xs) / U64, max(ys) / U64]
-                        fill, tg = grad_info(gel, fbb, vb, dense)
+                        fill, tg = grad_info(gel, fbb, vb, dense, view or vb)
                         if fill is None:      # a gradient without stops paints nothing
                             continue
                 layers.append({"polys": polys, "rule": ch.attrib.get("fill-rule", "nonzero"),
